@@ -29,7 +29,7 @@ def contract_check(tier, seed, binaries):
         n, both, neither, len(fails))
 
 
-_GOTEST = {"kind": "gotest", "mod": "core", "pkg": "./server", "run": "^TestVerifC07$", "reset_re": "^reset", "timeout": 1500}
+_GOTEST = {"kind": "gotest", "mod": "core", "pkg": "./server", "run": "^TestVerifC07$", "reset_re": "^reset", "timeout": 900}
 
 CFG = {
     "props_module": "Hy.Props.C08",
@@ -38,15 +38,15 @@ CFG = {
     "race": True,
     "extra_checks": [contract_check],
     "streams": [
-        dict(_GOTEST, component="udpacl", driver="udpacl", n={"quick": 6000, "thorough": 150000}),
-        dict(_GOTEST, component="udpsession", driver="udpsession", n={"quick": 2000, "thorough": 60000}),
+        dict(_GOTEST, component="udpacl", driver="udpacl", n={"quick": 9000, "thorough": 200000}),
     ],
     "rule": "histories of one UDP session on the REAL udpSessionManager (in-package harness, synctest bubble): the policy is a PRNG-chosen "
             "deny-set over 700 destinations (density 0, 1/5, 1/2, 9/10); destination sequences of 250..380 distinct addresses (cache "
             "capacity 256) followed by revisits of evicted / early / random keys, few-destination histories with many repeats, short random "
-            "ones; first dial with hook off / error / rewrite to an allowed, a denied, or the empty address, dial errors; replies. The "
+            "ones, every destination sometimes repeated back to back, hook rewriting with original / rewritten address each allowed or denied; first dial with hook off / error / rewrite to an allowed, a denied, or the empty address, dial errors; replies. The "
             "evicted key of every eviction is read from the real map and handed to the model, so cache contents are compared exactly "
-            "after every datagram. Second stream: the multi-session lifecycle histories of C07 (policy applies there too). "
+            "after every datagram. Only the clauses of THIS property are evaluated here (policy / override / cache oracles and the "
+            "udpacl comparison); the session lifecycle is C07's and is not compared. "
             "distinct = distinct op line; non-trivial = the op made the code call its environment (dial / CheckUDP / WriteTo / SendMessage)",
     "trusted_base": [
         "Outbound contract: UDP(a) succeeds only for a destination CheckUDP(a) allows, and fails for the empty address "
@@ -54,7 +54,7 @@ CFG = {
         "The fake outbound of the harness obeys it by construction; the theorem no_empty_guard_counterexample shows what breaks without it",
         "only the receive loop calls entry.Feed, so aclCache / OverrideAddr / OriginalAddr need no lock (modelled as sequential)",
         "the model Hy.Model.UdpAcl is tied to core/server/udp.go by the streams `udpacl` (events, override/original, full cache content "
-        "after every op) and `udpsession`, and by maxSessionACLCache regenerated from the compiled package",
+        "after every op), by the statements the model is written from (udpAclSkel_* regenerated from udp.go) and by maxSessionACLCache regenerated from the compiled package",
     ],
     "assumptions": [
         "the policy is a fixed predicate on the destination string for the lifetime of the session",
@@ -63,7 +63,7 @@ CFG = {
 }
 
 MANIFEST = {
-    "text": "Proof: 13 Lean theorems (8 properties, 2 constant and 3 source-skeleton obligations) over an executable model of udpSessionEntry.Feed's destination handling (initConn/hook override, "
+    "text": "Proof: 15 Lean theorems (8 properties, 2 constant and 5 source-text obligations) over an executable model of udpSessionEntry.Feed's destination handling (initConn/hook override, "
             "cache seeding, checkAddr with the 256-entry decision cache and arbitrary eviction victim): for every policy, every destination "
             "sequence, every dial/hook outcome and every eviction choice, each cached verdict equals the policy's (cache_sound, "
             "verdict_is_policy), every WriteTo goes to an allowed destination and a denied one never receives a datagram (writes_allowed, "
